@@ -276,6 +276,17 @@ func judgeExpectedHits(r *Run, j *Judged, cl []*cls, by map[int]*OResp) {
 		if L == nil {
 			continue
 		}
+		// L's own storing must not have raced with another exchange's store of the same resource
+		raced := false
+		doneL := r.lastSeqOfLineage(L.Call)
+		for _, o := range r.Calls {
+			if o != L.Call && o.Res == res && o.SeqStart < doneL && (!o.Ended || r.lastSeqOfLineage(o) > L.Call.SeqStart) {
+				raced = true
+			}
+		}
+		if raced {
+			continue
+		}
 		// effective stored header fields and the body they belong to
 		hdr := L.Header.Clone()
 		body := L
